@@ -240,6 +240,7 @@ def write_evidence(ctx: Ctx, audit: dict, rule: str, assumptions: list[str]):
         "trusted_base": TRUSTED_BASE,
         "theorems": audit.get("theorems", []),
         "axioms_used": audit.get("axioms_used", []),
+        "leanchecker": audit.get("leanchecker", "not run (thorough tier only)"),
         "evaluations": ctx.evaluations,
         "distinct_nontrivial": len(ctx.nontrivial),
         "rule": rule,
